@@ -619,6 +619,9 @@ func C20(c *runner.Cfg) *report.Result {
 			}, nil)
 		}
 	}
+	if !c.Abort.Load() {
+		freeUnderBackPressure(c, res)
+	}
 	res.Observe("hook_hits", hooks.Hits())
 	fk, fd := hooks.Failures()
 	for k, nn := range fk {
